@@ -86,16 +86,160 @@ def main():
         u.append('    }')
         u.append('//@end')
         return "\n".join(u)
+
+    def mul_unit_nocarry(fn):
+        """No-carry CIOS, fully unrolled by the generator: the proof is the loop proof of the trait default
+        (contracts/c01_mont.vxb, MontConfig::mul_assign) replayed per unrolled row / column with literal indices;
+        row and column counters live in ghost variables."""
+        PN = "%dnat" % modulus; RN = "%dnat" % R
+        u = []
+        # products of limbs are kept as applications of an opaque function in the body query (Z3's nonlinear engine stays out of
+        # the straight-line code); the wrappers are verified calls of the real leaf functions, nothing is assumed
+        u.append("""#[verifier::opaque]
+pub open spec fn prod(x: nat, y: nat) -> nat { x * y }
+pub proof fn lemma_prod(x: nat, y: nat) ensures prod(x, y) == x * y { reveal(prod); }
+fn mac_o(a: u64, b: u64, c: u64, carry: &mut u64) -> (r: u64)
+    ensures r as nat + (*final(carry)) as nat * B() == a as nat + prod(b as nat, c as nat)
+{ proof { lemma_prod(b as nat, c as nat); } mac(a, b, c, carry) }
+fn mac_discard_o(a: u64, b: u64, c: u64, carry: &mut u64)
+    ensures (*final(carry)) as nat == (a as nat + prod(b as nat, c as nat)) / B()
+{ proof { lemma_prod(b as nat, c as nat); } mac_discard(a, b, c, carry) }
+fn mac_with_carry_o(a: u64, b: u64, c: u64, carry: &mut u64) -> (r: u64)
+    ensures r as nat + (*final(carry)) as nat * B() == a as nat + prod(b as nat, c as nat) + (*old(carry)) as nat
+{ proof { lemma_prod(b as nat, c as nat); } mac_with_carry(a, b, c, carry) }
+//@clearpaths
+//@path fa::mac_with_carry => mac_with_carry_o
+//@path fa::mac_discard => mac_discard_o
+//@path fa::mac => mac_o
+//@path fa => 
+//@path Self::INV => Cfg::INV
+//@path ark_ff::biginteger::arithmetic => crate""")
+        u.append('//@unit name=derive::%s file=%s sel="impl MontConfig / %s" rename=derive_%s' % (fn, gen_rs, fn, fn))
+        u.append('//@spec')
+        u.append('    requires val(old(a).0.0@, %d) < %s, val(b.0.0@, %d) < %s,' % (n, PN, n, PN))
+        u.append('    ensures val(final(a).0.0@, %d) < %s, mont_rel(val(final(a).0.0@, %d), val(old(a).0.0@, %d) * val(b.0.0@, %d), %s, %s),' % (n, PN, n, n, n, PN, RN))
+        u.append('//@at fn.begin')
+        u.append('    let ghost av = a.0.0@; let ghost bv = b.0.0@; let ghost pv = Cfg::MODULUS.0@;')
+        u.append('    let ghost A = val(av, %d); let ghost P = val(pv, %d);' % (n, n))
+        u.append('    let ghost mut m: nat = 0; let ghost mut gi: nat = 0; let ghost mut bi: nat = 0; let ghost mut tv: nat = 0;')
+        u.append('    let ghost mut r0: Seq<u64> = Seq::empty(); let ghost mut rprev: Seq<u64> = Seq::empty(); let ghost mut rlast: Seq<u64> = Seq::empty();')
+        u.append('    let ghost mut c1: nat = 0; let ghost mut c2: nat = 0; let ghost mut vnew_g: nat = 0;')
+        u.append('    proof { lemma_cfg_wf(); val_bound(pv, %d); val_bound(bv, %d); val_bound(av, %d); bpow_pos(%d);' % (n, n, n, n))
+        for j in range(n):
+            u.append('        assert(pv[%d] == %du64);' % (j, pl[j]))
+        u.append('    }')
+        u.append('//@at after["let mut r = [0u64; %dusize];"]' % n)
+        u.append('    proof { val_zero(r@, %d); assert(A * val(bv, 0) == 0) by(nonlinear_arith) requires val(bv, 0) == 0; assert(0 * P == 0) by(nonlinear_arith);' % n)
+        u.append('        assert(bpow(0) == 1); assert(val(r@, %d) * bpow(0) == A * val(bv, 0) + m * P); }' % n)
+        u.append('//@at after*["let mut carry1 = 0u64;"]')
+        u.append('    proof { r0 = r@; }')
+        row_end = []
+        def row_end_text():
+            t = []
+            t.append('        let bn = bpow(%d); let bn1 = bpow(%d);' % (n, n - 1))
+            t.append('        let vlow = val(r@, %d);' % (n - 1))
+            t.append('        let cs = carry1 as nat + carry2 as nat;')
+            t.append('        let vnew = vlow + cs * bn1;')
+            t.append('        let bi_pow = bpow(gi);')
+            t.append('        let m2 = m + k as nat * bi_pow;')
+            t.append('        assert(cs < B() && vnew * bpow(gi + 1) == A * val(bv, gi + 1) + m2 * P && m2 < bpow(gi + 1)) by {')
+            t.append('            assert(bn == B() * bn1);')
+            t.append('            assert(tv + carry1 as nat * bn == val(r0, %d) + A * bi);' % n)
+            t.append('            assert(tv + k as nat * P == B() * vlow + carry2 as nat * bn);')
+            t.append('            assert(B() * vnew == val(r0, %d) + A * bi + k as nat * P) by(nonlinear_arith)' % n)
+            t.append('                requires tv + carry1 as nat * bn == val(r0, %d) + A * bi, tv + k as nat * P == B() * vlow + carry2 as nat * bn, bn == B() * bn1, vnew == vlow + cs * bn1, cs == carry1 as nat + carry2 as nat;' % n)
+            t.append('            assert(bpow(gi + 1) == B() * bi_pow);')
+            t.append('            assert(vnew * (B() * bi_pow) == A * (val(bv, gi) + bi * bi_pow) + m2 * P) by(nonlinear_arith)')
+            t.append('                requires B() * vnew == val(r0, %d) + A * bi + k as nat * P, val(r0, %d) * bi_pow == A * val(bv, gi) + m * P, m2 == m + k as nat * bi_pow;' % (n, n))
+            t.append('            assert(m2 < B() * bi_pow) by(nonlinear_arith) requires m < bi_pow, (k as nat) < B(), m2 == m + k as nat * bi_pow;')
+            t.append('            val_bound(bv, gi + 1); bpow_pos(gi + 1);')
+            t.append('            assert(val(bv, gi + 1) == val(bv, gi) + bi * bi_pow);')
+            t.append('            lemma_lt(vnew, A, P, val(bv, gi + 1), m2, bpow(gi + 1));')
+            t.append('            assert(cs < B()) by(nonlinear_arith) requires vnew == vlow + cs * bn1, vnew < A + P, A < P, 2 * P <= bn, bn == B() * bn1;')
+            t.append('        }')
+            t.append('        m = m2; rlast = r@; vnew_g = vnew;')
+            return t
+        for i in range(n):
+            u.append('//@at after["r[0] = fa::mac(r[0], (a.0).0[0], (b.0).0[%dusize], &mut carry1);"]' % i)
+            u.append('    proof { gi = %d; bi = bv[%d] as nat; assert(val(r0, %d) * bpow(gi) == A * val(bv, gi) + m * P); assert(m < bpow(gi)); }' % (i, i, n))
+        u.append('//@at after*["fa::mac_discard(r[0], k, %du64, &mut carry2);"]' % pl[0])
+        u.append('    proof {')
+        u.append('        tv = r[0] as nat;')
+        u.append('        assert(tv + carry1 as nat * bpow(1) == val(r0, 1) + val(av, 1) * bi && tv + k as nat * val(pv, 1) == B() * val(r@, 0) + carry2 as nat * bpow(1)) by {')
+        u.append('        lemma_prod(av[0] as nat, bi); lemma_prod(k as nat, pv[0] as nat);')
+        u.append('        lemma_wrapping_mul(r[0], Cfg::INV);')
+        u.append('        lemma_k(r[0] as nat, Cfg::INV as nat, pv[0] as nat, k as nat);')
+        u.append('        lemma_div_exact(r[0] as nat + k as nat * pv[0] as nat, carry2 as nat);')
+        u.append('        reveal_with_fuel(val, 2); reveal_with_fuel(bpow, 2);')
+        u.append('        assert(bpow(1) == B() * bpow(0));')
+        u.append('        assert(val(r0, 1) == r0[0] as nat * bpow(0));')
+        u.append('        assert(val(av, 1) == av[0] as nat * bpow(0));')
+        u.append('        assert(val(pv, 1) == pv[0] as nat * bpow(0));')
+        u.append('        assert(tv + carry1 as nat * bpow(1) == val(r0, 1) + val(av, 1) * bi) by(nonlinear_arith)')
+        u.append('            requires tv + carry1 as nat * B() == r0[0] as nat + av[0] as nat * bi, bpow(1) == B(), val(r0, 1) == r0[0] as nat * 1, val(av, 1) == av[0] as nat * 1;')
+        u.append('        assert(tv + k as nat * val(pv, 1) == B() * val(r@, 0) + carry2 as nat * bpow(1)) by(nonlinear_arith)')
+        u.append('            requires tv + k as nat * pv[0] as nat == carry2 as nat * B(), bpow(1) == B(), val(pv, 1) == pv[0] as nat * 1, val(r@, 0) == 0;')
+        u.append('        }')
+        if n == 1:
+            u.extend(row_end_text())
+        u.append('        rprev = r@; c1 = carry1 as nat; c2 = carry2 as nat;')
+        u.append('    }')
+        for j in range(1, n):
+            u.append('//@at after*["r[%dusize] = fa::mac_with_carry(r[%dusize], k, %du64, &mut carry2);"]' % (j - 1, j, pl[j]))
+            u.append('    proof {')
+            u.append('        let tv_old = tv;')
+            u.append('        tv = tv_old + (r@[%d] as nat) * bpow(%d);' % (j, j))
+            u.append('        // only the two column invariants leave this block (keeps the body query small)')
+            u.append('        assert(tv + carry1 as nat * bpow(%d) == val(r0, %d) + val(av, %d) * bi' % (j + 1, j + 1, j + 1))
+            u.append('            && tv + k as nat * val(pv, %d) == B() * val(r@, %d) + carry2 as nat * bpow(%d)) by {' % (j + 1, j, j + 1))
+            u.append('            let tj = r@[%d] as nat; let bj = bpow(%d);' % (j, j))
+            u.append('            lemma_prod(av[%d] as nat, bi); lemma_prod(k as nat, pv[%d] as nat);' % (j, j))
+            u.append('            assert(bpow(%d) == B() * bj);' % (j + 1))
+            u.append('            assert(bj == B() * bpow(%d));' % (j - 1))
+            u.append('            assert(forall|l: int| 0 <= l < %d ==> rprev[l] == r@[l]);' % (j - 1))
+            u.append('            val_frame(rprev, r@, %d);' % (j - 1))
+            u.append('            let nw = r@[%d] as nat;' % (j - 1))
+            u.append('            assert(rprev[%d] == r0[%d]);' % (j, j))
+            u.append('            assert(tv_old + tj * bj + carry1 as nat * (B() * bj) == val(r0, %d) + r0[%d] as nat * bj + (val(av, %d) + av[%d] as nat * bj) * bi) by(nonlinear_arith)' % (j, j, j, j))
+            u.append('                requires tv_old + c1 * bj == val(r0, %d) + val(av, %d) * bi, tj + carry1 as nat * B() == r0[%d] as nat + av[%d] as nat * bi + c1;' % (j, j, j, j))
+            u.append('            lemma_i2(tv_old, tj, bj, k as nat, val(pv, %d), pv[%d] as nat, val(rprev, %d), nw, bpow(%d), c2, carry2 as nat);' % (j, j, j - 1, j - 1))
+            u.append('        }')
+            if j == n - 1:
+                u.extend(row_end_text())
+            u.append('        rprev = r@; c1 = carry1 as nat; c2 = carry2 as nat;')
+            u.append('    }')
+        u.append('//@at after*["r[%dusize - 1] = carry1 + carry2;"]' % n)
+        u.append('    proof {')
+        u.append('        assert(forall|l: int| 0 <= l < %d ==> rlast[l] == r@[l]);' % (n - 1))
+        u.append('        val_frame(rlast, r@, %d);' % (n - 1))
+        u.append('        assert(val(r@, %d) == vnew_g);' % n)
+        u.append('        assert(val(r@, %d) * bpow(gi + 1) == A * val(bv, gi + 1) + m * P);' % n)
+        u.append('        assert(m < bpow(gi + 1));')
+        u.append('    }')
+        u.append('//@at after["(a.0).0 = r;"]')
+        u.append('    proof {')
+        u.append('        let bb = bpow(%d); let vb = val(bv, %d); let vr = val(r@, %d);' % (n, n, n))
+        u.append('        assert(gi + 1 == %d);' % n)
+        u.append('        lemma_lt(vr, A, P, vb, m, bb);')
+        u.append('        lemma_rel_from_witness(vr, bb, A * vb, m, P);')
+        u.append('        if vr >= P { lemma_rel_shift(vr, A * vb, P, bb); }')
+        u.append('    }')
+        u.append('//@at fn.end')
+        u.append('    proof { val_bound(a.0.0@, %d); }' % n)
+        u.append('//@end')
+        return "\n".join(u)
     mul_units = ""
     want_mul = os.environ.get("DERIVE_MUL_MAX_N", "2")
     if uses_scratch and n <= int(want_mul):
         mul_units = mul_unit_scratch("mul_assign", "scratch", "tmp", False)
+    if not uses_scratch and n <= int(os.environ.get("DERIVE_NOCARRY_MAX_N", "12")):
+        mul_units = mul_unit_nocarry("mul_assign")
     tpl = open(os.path.join(V, "contracts/c01_derive.vxt")).read()
     copy_hi = "(a.0).0 = [" + ", ".join("%s[%d]" % ("scratch" if uses_scratch else "r", n + i) for i in range(n)) + "];"
     rep = {
         "{KEY}": key, "{NP1}": str(n + 1), "{N}": str(n), "{GENFILE}": gen_rs, "{MODLIT}": lit(pl), "{INV}": "%du64" % inv, "{R2LIT}": lit(r2), "{P0}": "%d" % pl[0],
         "{SPARE}": "true" if spare else "false", "{NOCARRY}": "true" if nocarry else "false",
-        "{UNFOLD_LEMMA}": unfold_lemma, "{DIST_LEMMA}": (dist_lemma if mul_units else "// (no multiplication unit at this grid point: lemma_dist omitted)"), "{MODPLAIN}": str(modulus), "{MODNAT}": "%dnat" % modulus, "{MODINT}": "%dint" % modulus, "{RNAT}": "%dnat" % R,
+        "{UNFOLD_LEMMA}": unfold_lemma, "{DIST_LEMMA}": (dist_lemma if (mul_units and uses_scratch) else "// (no multiplication unit at this grid point: lemma_dist omitted)"), "{MODPLAIN}": str(modulus), "{MODNAT}": "%dnat" % modulus, "{MODINT}": "%dint" % modulus, "{RNAT}": "%dnat" % R,
         "{UNFOLD_A}": "lemma_unfold(a.0.0@);", "{COPY_HI_SCRATCH}": copy_hi.replace("r[", "scratch[") if uses_scratch else copy_hi,
         "{COPY_HI_R}": "(a.0).0 = [" + ", ".join("r[%d]" % (n + i) for i in range(n)) + "];",
         "{AARGS}": ", ".join("a.0.0@[%d] as nat" % i for i in range(n)), "{BARGS}": ", ".join("b.0.0@[%d] as nat" % i for i in range(n)),
